@@ -56,6 +56,19 @@ DIRECTED = [
         _a("Step", task="sync_B_with_parent_A"),
         _a("Restart"),
         _a("Step", task="sync_repo_B"), _a("Settle")]},
+    # a CA is deleted (its parent removes the child, the server's operator
+    # the publisher it left behind) and a CA of the same name is created:
+    # the new CA starts without any report about parent or repository --
+    # nothing of the deleted CA's entries comes back --, also after a restart
+    {"actions": [
+        _a("AddCa", c="B", p="A", res=["p1", "p2"]), _a("Settle"),
+        _a("RoaAdd", c="B", r=["p1", "a1"]), _a("Settle"),
+        _a("DeleteCa", c="B"), _a("Settle"),
+        _a("ChildRemove", c="B", p="A"), _a("PubRemove", c="B"),
+        _a("Settle"),
+        _a("AddCa", c="B", p="A", res=["p2"], again=True),
+        _a("Restart"), _a("Settle"),
+        _a("RoaAdd", c="B", r=["p2", "a1"]), _a("Settle")]},
 ]
 
 RULE = (
